@@ -10,9 +10,11 @@
    no scratch group; (4) UNION + REPLACE: append-over of a runtime tree onto the encoding of a file tree, for all trees at all
    depths, leaves the file-only nodes (also below a replaced node), replaces own content and metadata of every node
    present in both, adds the rest -- and save(path, root, mode = any append-over mode) leaves exactly that in the file.
-   PARTIAL: the emdpath variants of the dispatcher of write.py (targeted appends) and root metadata under append-over
-   are tied by correspondence + the reference-model oracle. *)
-From Emd Require Import Base.Prelude Model.H5 Model.Emd Model.Reader Generated.Tables Proofs.PTree Proofs.PFault Proofs.PAppend Proofs.PRead Proofs.PUnion Proofs.PUnionAO.
+   (5) a foreign tree (root name not in the file) appended under an emdpath: exactly the selection goes under the target
+   group and no object off the target's path changes.  PARTIAL: the emdpath variants for a root the file already has
+   (targeted appends within one tree) and root metadata under append-over are tied by correspondence + the
+   reference-model oracle. *)
+From Emd Require Import Base.Prelude Model.H5 Model.Emd Model.Reader Generated.Tables Proofs.PTree Proofs.PFault Proofs.PAppend Proofs.PRead Proofs.PUnion Proofs.PUnionAO Proofs.PTarget.
 
 (* merge m n: m's own content; a child of n called like a child of m is merged into it, recursively; the other children
    of n follow m's, each with its whole branch.  compat m n: n's children are distinctly named, are not called like a
@@ -76,6 +78,31 @@ Example C09_appendover_example :
                            RN CArray "a" 6%Z 2 [] [RN CNode "x" 0%Z 0 [] []; RN CNode "y" 0%Z 0 [("k", 9%Z)] [RN CPl "z" 3%Z 0 [] []; RN CNode "w" 0%Z 0 [] []]];
                            RN CNode "c" 0%Z 0 [] []].
 Proof. cbv zeta. split; [apply compat_aob_sound; vm_compute; reflexivity|vm_compute; reflexivity]. Qed.
+
+(* ---------- a foreign tree under an emdpath.  h = the group path the emdpath resolves to (emd_target), G ga gl = the
+   group there; is_pref a b = a is a prefix of b: an object whose path neither lies on the way to h nor below h is
+   untouched. *)
+Theorem C09_foreign_node_with_its_branch_goes_under_the_emdpath_target :
+  forall root tp data a m f ep rn treepath h ga gl,
+    mem (rname root) (rootgroups f) = false -> emdpath a = Some ep -> ep <> "" ->
+    parse_emdpath ep = (rn, treepath) -> emd_target f rn treepath = Ok h -> lookup f h = Some (G ga gl) ->
+    tp <> [] -> rwalk root tp = Some data -> tree a = Some true -> ok_tree data -> ~ In (rname data) (keys gl) ->
+    exists f', append_existing root tp a m f = Ok f' /\
+               lookup f' h = Some (G ga (gl ++ [(rname data, enc data)])) /\
+               (forall q, is_pref q h = false -> is_pref h q = false -> lookup f' q = lookup f q).
+Proof. exact foreign_node_with_branch_under_emdpath. Qed.
+Print Assumptions C09_foreign_node_with_its_branch_goes_under_the_emdpath_target.
+
+Theorem C09_foreign_whole_tree_goes_under_the_emdpath_target :
+  forall root a m f ep rn treepath h ga gl,
+    mem (rname root) (rootgroups f) = false -> emdpath a = Some ep -> ep <> "" ->
+    parse_emdpath ep = (rn, treepath) -> emd_target f rn treepath = Ok h -> lookup f h = Some (G ga gl) ->
+    tree a <> Some false -> ok_tree root -> (forall k, In k (rkids root) -> ~ In (rname k) (keys gl)) ->
+    exists f', append_existing root [] a m f = Ok f' /\
+               lookup f' h = Some (G ga (gl ++ enc_kids (rkids root))) /\
+               (forall q, is_pref q h = false -> is_pref h q = false -> lookup f' q = lookup f q).
+Proof. exact foreign_whole_tree_under_emdpath. Qed.
+Print Assumptions C09_foreign_whole_tree_goes_under_the_emdpath_target.
 
 Theorem C09_append_leaves_existing_nodes_unchanged :
   forall n g g', append_branch false n g = Ok g' -> ext g g'.
